@@ -28,16 +28,12 @@ Record inv_ctl (s : state) : Prop := {
   ic_dying : dying s = stopping s;
   ic_start : forall ok, ap s = AStart ok -> started s = true;
   ic_stop  : forall c ok, ap s = AStop c ok -> started s = false;
-  ic_store : NoDup (map fst (store s))
+  ic_store : NoDup (map fst (store s));
+  ic_prot  : sp s <> SIdle -> protected s = true
 }.
 
 Lemma inv_ctl_init c : inv_ctl (init c).
 Proof. constructor; cbn; try tauto; try discriminate; try constructor. Qed.
-
-Lemma stop_clear_ctl s : inv_ctl s -> stopping s = false -> inv_ctl (stop_clear s).
-Proof.
-  intros [H1 H2 H3 H4 H5] Hs. constructor; cbn; auto. constructor.
-Qed.
 
 Ltac rw_ctl :=
   repeat match goal with
@@ -59,7 +55,7 @@ Ltac split_ap :=
 Lemma inv_ctl_step s e s' : inv_ctl s -> step s e = Some s' -> inv_ctl s'.
 Proof.
   intros I H. destruct e; step_inv H.
-  all: destruct I as [I1 I2 I3 I4 I5];
+  all: destruct I as [I1 I2 I3 I4 I5 I6];
        unfold stopping, stop_clear, pop_cmd, handover, put_entry, enqueue in *;
        repeat match goal with |- context [if ?c then _ else _] => destruct c end;
        cbn in *; split_ap; constructor; cbn in *; rw_ctl;
